@@ -140,10 +140,10 @@ decodeRune:
 		p.litBs = append(p.litBs, p.bs[p.bsp:p.bsp+uint(w)]...)
 	}
 	p.bsp += uint(w)
+	p.w = w // before nextPos, which needs the width of this rune
 	if p.r == utf8.RuneError && w == 1 {
 		p.posErr(p.nextPos(), "invalid UTF-8 encoding")
 	}
-	p.w = w
 	return p.r
 }
 
